@@ -466,6 +466,19 @@ def e2_op_strategies(nparts, ngroups, profile):
                             min_size=21, max_size=26)
         .map(lambda ts: ['macro', [['resize', t[0], t[1], t[2]] for t in ts] +
                          [['cycle']]]),
+        # macro: a loaded server bounces (same record) while its instances
+        # are within their retention, new instances (leased / schedule-once)
+        # are placed, then a new master starts: the server holds records on
+        # both sides of its presence node
+        'bounceplace': st.tuples(idx, st.booleans(), ops_app_placeholder,
+                                 ops_app_placeholder,
+                                 st.sampled_from(['1h', '1d', '6d']))
+        .map(lambda t: ['macro', [['down', t[0]]] +
+                        ([['cycle']] if t[1] else []) +
+                        [['uptrait', t[0], None], ['cycle'],
+                         t[2][:5] + [t[4]] + t[2][6:],
+                         t[3][:9] + [True] + t[3][10:],
+                         ['cycle'], ['restart'], ['cycle']]]),
         # macro: instances are stopped (or finish) while no master handles
         # the event, then a new master starts on the stale records
         'rmrestart': st.tuples(st.lists(idx, min_size=1, max_size=3),
@@ -618,7 +631,8 @@ E2_WEIGHTS = {
     'reboot': 1, 'resize': 1, 'shave': 1, 'repart': 1, 'reparent': 1,
     'state': 1, 'allocs': 1, 'idg': 1, 'rmidg': 1, 'bl': 1, 'blackout': 1,
     'cellev': 1, 'cellrm': 0, 'rmbucket': 0, 'rmbucketrestart': 0,
-    'rmbucketcrash': 0, 'badparent': 0, 'badparentcrash': 0, 'rmrestart': 0, 'evburst': 0, 'retrait': 0, 'rebucket': 0, 'running': 1, 'adv': 2, 'adv_ret': 1, 'tickreboots': 1,
+    'rmbucketcrash': 0, 'badparent': 0, 'badparentcrash': 0, 'rmrestart': 0, 'evburst': 0, 'retrait': 0, 'rebucket': 0,
+    'bounceplace': 0, 'running': 1, 'adv': 2, 'adv_ret': 1, 'tickreboots': 1,
     'checkreboot': 1, 'integrity': 1, 'enq': 1, 'proc': 1, 'ev': 3,
     'sched': 3, 'cycle': 6, 'restart': 1,
 }
